@@ -161,6 +161,12 @@ func TestCheck(t *testing.T) {
 	}
 	phase("seq")
 
+	// (2b) generated victim / poison histories outside the fixed pool
+	if want("poison") {
+		rt.Rapid(e, "poison", 24000, 400000, genPCase, RunPoison)
+	}
+	phase("poison")
+
 	// (4) aliasing: every call followed by others, then random histories
 	if want("alias-each") {
 		rt.Enum(e, "alias-each", func(yield func(Case) bool) {
